@@ -8,7 +8,6 @@ HARNESSES = [
     ("visit", ["visit.cxx"], "plain"),
     ("seqs", ["seqs.cxx"], "plain"),
     ("seqs", ["seqs.cxx"], "asan"),
-    ("make", ["make.cxx"], "asan"),
     ("scopes", ["scopes.cxx"], "plain"),
     ("regions", ["regions.cxx"], "plain"),
     ("strings", ["strings.cxx"], "plain"),
